@@ -226,7 +226,17 @@ fn vec_check(ctx: &mut Ctx) {
         let n = ctx.pick(q, t);
         ctx.random(name, "vec", &|| vec_gen::case(&cfg), &run, n);
     }
+    // the same generators on vectors of up to 200 items: imbl switches from its inline /
+    // single-chunk representation to a multi-chunk RRB tree at 64 items
+    if let Some((_, cfg, q, t)) = vec_phases(prop).into_iter().next() {
+        let big = GenCfg { max_initial: 200, max_ops: 14, ..cfg };
+        let n = ctx.pick(q / 25, t / 25);
+        ctx.random("large-vectors", "vec", &|| vec_gen::case(&big), &run, n);
+    }
     let _ = ALL_KINDS;
+    if let Some((_, g, _, _)) = vec_phases(prop).into_iter().next() {
+        ctx.fuzz_phase("vec", &|b: &[u8]| crate::decode::vec_case(b, &g), &run, &|c: &VecCase| engine_vec::shrink(c, prop));
+    }
     // bounded-exhaustive sweeps
     use crate::vec_enum as ve;
     let deep = ctx.tier == crate::ctx::Tier::Thorough;
@@ -301,6 +311,8 @@ fn obs_check(ctx: &mut Ctx) {
         let n = ctx.pick(q, t);
         ctx.random(name, "obs", &|| engine_obs::case(&cfg), &run, n);
     }
+    let fl = if prop == Prop::C16 { Fl::Both } else { Fl::Sync };
+    ctx.fuzz_phase("obs", &|b: &[u8]| crate::decode::obs_case(b, fl), &run, &|c: &ObsCase| engine_obs::shrink(c, prop));
     if prop == Prop::C16 {
         let run = move |c: &crate::engine_async::AsyncCase| crate::engine_async::run(c, prop);
         ctx.regress_dir("regress", "async", &run);
